@@ -1157,7 +1157,7 @@ class Judge(object):
                                 "both endpoints completed (%s) although the attacker changed handshake content in %s (%s)"
                                 % (case["scn"], changed, kind)))
                 elif not dv and report:
-                    f = self.benign_field(case)
+                    f = self.benign_field(case, res)
                     self.benign[f] = self.benign.get(f, 0) + 1
             if res.get("hooked"):
                 bad.append(("c04:finished-with-wrong-verify-data-accepted",
@@ -1213,10 +1213,14 @@ class Judge(object):
                         % (case["scn"], res["c_exc"], res["s_exc"])))
         return bad
 
-    def benign_field(self, case):
+    def benign_field(self, case, res=None):
         t = case.get("tamper")
         if isinstance(t, list):
             return "combined"
+        if res is not None and res.get("unread", {}).get(t["dir"]):
+            n = len(consumed(res["fwd"][t["dir"]], res["unread"][t["dir"]]))
+            if t["rec"] >= n or (t["op"] == "dup" and t["rec"] + 1 >= n):
+                return "record-not-read-during-handshake"
         if t["op"] == "flip":
             return "record-header-byte-%d" % t["off"] if t["off"] < 5 else "record-body-%s" % case.get("cls")
         return "%s-%s" % (t["op"], case.get("cls"))
@@ -1760,9 +1764,12 @@ def run(ctx):
                                       "views": {"client": res.get("c_view"), "server": res.get("s_view")} if res["both"] else None})
     ctx.extra["cases_run"] = done
     ctx.extra["benign_accepted_modifications"] = dict(sorted(J.benign.items()))
-    ctx.extra["benign_note"] = ("both completed with identical views and transcripts although bytes were changed: only record "
-                                "framing (legacy record version bytes, re-fragmentation, TLS 1.3 compatibility CCS), never "
-                                "handshake content or protected records")
+    ctx.extra["benign_note"] = ("both completed with identical views and transcripts although the attacker changed the byte "
+                                "stream: only record framing (legacy record-version bytes 1-2 of unprotected records, "
+                                "re-fragmentation of unprotected handshake records, TLS 1.3 compatibility CCS dropped / "
+                                "duplicated / moved) or records that were still unread when both handshakes had returned "
+                                "(duplicate of the last flight, post-handshake tickets: the record layer's business, C02); never "
+                                "handshake content or a protected record that was consumed")
     ctx.extra["detector_predictions_with_single_allowed_side"] = J.pred_single
     ctx.extra["worker_processes"] = nproc
 
